@@ -142,4 +142,4 @@ static std::string dispatch(const std::string &op, const Args &a)
     exit(2);
 }
 
-int main(int argc, char **argv) { return run_main(argc, argv, dispatch); }
+int main(int argc, char **argv) { vh::g_decoy = true; return run_main(argc, argv, dispatch); }
